@@ -82,6 +82,14 @@ McRows(G, i) == IF i >= G.n - 1 THEN <<>>
                 ELSE [k \in 1..Cardinality({ j \in Nbrs(G, i) : j > i }) |-> SortedSeq({ j \in Nbrs(G, i) : j > i })[k] + 1] \o <<0>> \o McRows(G, i + 1)
 McEncode(G) == IF G.n = 0 THEN <<0>> ELSE <<G.n>> \o McRows(G, 0)
 
+(* ---- adjacency matrix text (MATLAB style): "[" rows separated by ";" entries separated by "," "]" ; "[]" for the empty graph ---- *)
+AdjChar(G, i, j) == IF {i, j} \in G.E THEN 49 ELSE 48
+RECURSIVE AdjRow(_, _, _)
+AdjRow(G, i, j) == IF j = G.n - 1 THEN <<AdjChar(G, i, j)>> ELSE <<AdjChar(G, i, j), 44>> \o AdjRow(G, i, j + 1)
+RECURSIVE AdjRows(_, _)
+AdjRows(G, i) == IF i = G.n - 1 THEN AdjRow(G, i, 0) ELSE AdjRow(G, i, 0) \o <<59>> \o AdjRows(G, i + 1)
+AdjMatEncode(G) == IF G.n = 0 THEN <<91, 93>> ELSE <<91>> \o AdjRows(G, 0) \o <<93>>
+
 (* ---- Pruefer ---- *)
 IsTree(G) == G.n >= 1 /\ NumEdges(G) = G.n - 1 /\
              LET RECURSIVE Reach(_)
